@@ -376,6 +376,13 @@ class SymArr:
         Integers drop their axis, slices keep it; index arrays / lists are broadcast against each other (a[[0, 1], [0, 1]] picks
         the pairs, np.ix_ gives the outer grid) and their common shape stands where the first of them stood when they are
         adjacent, in front otherwise; a boolean vector selects along its axis"""
+        if isinstance(key, SymArr) and key.ndim == self.ndim > 1 and key.size and all(isinstance(v, bool) for v in key.flat):
+            if tuple(key.shape) != tuple(self.shape):
+                raise IndexError("boolean index did not match indexed array")
+            hits = [idx for idx in itertools.product(*[range(n) for n in self.shape]) if key.at(idx)]
+            key = tuple([h[ax] for h in hits] for ax in range(self.ndim))
+            if not hits:
+                return (0,), []
         if not isinstance(key, tuple):
             key = (key,)
         key = list(key) + [slice(None)] * (self.ndim - len(key))
@@ -515,6 +522,14 @@ class SymArr:
 
     __rmul__ = __mul__
 
+    def __mod__(self, o):
+        def mod(x, y):
+            a_, b_ = _const(x, "a remainder"), _const(y, "a remainder")
+            if b_ == 0:
+                raise A.Undecided("remainder by zero")
+            return A.Rat.const(a_ % b_)
+        return self._bin(o, mod)
+
     def __truediv__(self, o):
         return self._bin(o, lambda x, y: x / y)
 
@@ -568,6 +583,9 @@ class SymArr:
             a, b = _broadcast_to(self, shape), _broadcast_to(o, shape)
             return SymArr(shape, [one(x, y) for x, y in zip(a.flat, b.flat)], boolean=True)
         return SymArr(self.shape, [one(x, o) for x in self.flat], boolean=True)
+
+    def mean(self, axis=None, **k):
+        return _sym_mean(self, axis, **k)
 
     def same(self, o):
         return isinstance(o, SymArr) and self.shape == o.shape and all(x == y for x, y in zip(self.flat, o.flat))
@@ -697,7 +715,10 @@ def insert(a, idx, values, axis=None):
     if not 0 <= k <= a.size:
         raise IndexError("index %d is out of bounds for axis 0 with size %d" % (idx, a.size))
     flat = list(a.flat)
-    return SymArr((a.size + len(vals),), flat[:k] + vals + flat[k:])
+    out = SymArr((a.size + len(vals),), flat[:k] + ([_int_cast(v) for v in vals] if getattr(a, "int_typed", False) else vals) + flat[k:])
+    if getattr(a, "int_typed", False):
+        out.int_typed = True            # np.insert keeps the dtype of the array it inserts into and casts the inserted values
+    return out
 
 
 def bmat(blocks):
@@ -773,6 +794,87 @@ def _sym_ix(*seqs):
     return tuple(out)
 
 
+def _truth(v):
+    return v if isinstance(v, bool) else _const(v, "the truth value") != 0
+
+
+def _sym_where(cond, x=None, y=None):
+    if (x is None) != (y is None):
+        raise ValueError("either both or neither of x and y should be given")
+    c = cond if isinstance(cond, SymArr) else SymArr.of(cond) if isinstance(cond, (list, tuple)) else None
+    if x is None:
+        if c is None:
+            raise A.Undecided("np.where of a scalar")
+        hits = [idx for idx in itertools.product(*[range(n) for n in c.shape]) if _truth(c.at(idx))]
+        return tuple(SymArr((len(hits),), [h[ax] for h in hits]) for ax in range(c.ndim))
+    if c is None:
+        return x if _truth(cond) else y
+    xa = x if isinstance(x, SymArr) else SymArr.of(x) if isinstance(x, (list, tuple)) else None
+    ya = y if isinstance(y, SymArr) else SymArr.of(y) if isinstance(y, (list, tuple)) else None
+    shape = tuple(c.shape)
+    for other in (xa, ya):
+        if other is not None:
+            shape = _bshape(shape, other.shape)
+    cb = _broadcast_to(c, shape)
+    xb = _broadcast_to(xa, shape).flat if xa is not None else [x] * _prod(shape)
+    yb = _broadcast_to(ya, shape).flat if ya is not None else [y] * _prod(shape)
+    return SymArr(shape, [a_ if _truth(t) else b_ for t, a_, b_ in zip(cb.flat, xb, yb)])
+
+
+def _sym_full_like(a, fill_value, dtype=None, order="K", subok=True, shape=None):
+    a = a if isinstance(a, SymArr) else SymArr.of(a)
+    sh = tuple(a.shape) if shape is None else ((shape,) if isinstance(shape, int) else tuple(shape))
+    name = None if dtype is None else (dtype if isinstance(dtype, str) else getattr(dtype, "__name__", str(dtype)))
+    as_int = getattr(a, "int_typed", False) if name is None else ("int" in str(name))
+    out = SymArr(sh, [(_int_cast(fill_value) if as_int else fill_value)] * _prod(sh))
+    out.int_typed = as_int
+    return out
+
+
+def _sym_stack3(seq, axis):
+    arrs = [x if isinstance(x, SymArr) else SymArr.of(x) for x in seq]
+    if not arrs or len({tuple(x.shape) for x in arrs}) != 1:
+        raise ValueError("all input arrays must have the same shape")
+    sh = tuple(arrs[0].shape)
+    shape = sh[:axis] + (len(arrs),) + sh[axis:]
+    flat = []
+    for idx in itertools.product(*[range(n) for n in shape]):
+        src = idx[:axis] + idx[axis + 1:]
+        flat.append(arrs[idx[axis]].at(src) if src else arrs[idx[axis]].flat[0])
+    return SymArr(shape, flat)
+
+
+def _sym_dstack(seq):
+    arrs = [x if isinstance(x, SymArr) else SymArr.of(x) for x in seq]
+    arrs = [x.reshape((1, x.shape[0])) if x.ndim == 1 else x for x in arrs]
+    if any(x.ndim != 2 for x in arrs):
+        raise A.Undecided("np.dstack of arrays with %s axes" % sorted({x.ndim for x in arrs}))
+    return _sym_stack3(arrs, 2)
+
+
+def _sym_mean(a, axis=None, dtype=None, out=None, keepdims=False):
+    if dtype is not None or keepdims:
+        raise A.Undecided("np.mean with dtype / keepdims")
+    if isinstance(a, (list, tuple)) and a and isinstance(a[0], SymArr):
+        a = _sym_stack3(a, 0)
+    a = a if isinstance(a, SymArr) else SymArr.of(a)
+    n = a.size if axis is None else a.shape[axis % a.ndim if isinstance(axis, int) and -a.ndim <= axis < a.ndim else _bad_axis(axis, a.ndim)]
+    if n == 0:
+        raise A.Undecided("mean of an empty array")
+    tot = a.sum(axis)
+    r = tot / n
+    if out is None:
+        return r
+    if not isinstance(out, SymArr) or not isinstance(r, SymArr) or tuple(out.shape) != tuple(r.shape):
+        raise ValueError("output parameter has the wrong shape")
+    out[tuple(slice(None) for _ in out.shape)] = r          # written into the given array: whoever else holds it sees the mean
+    return out
+
+
+def _bad_axis(axis, ndim):
+    raise ValueError("axis %r is out of bounds for array of dimension %d" % (axis, ndim))
+
+
 def _sym_empty(shape, dtype=None, order="C"):
     """np.empty: whatever is not written afterwards is garbage - a symbol of its own, so that it shows if it reaches a result"""
     sh = (shape,) if isinstance(shape, int) else tuple(shape)
@@ -808,8 +910,40 @@ def np_summaries():
     def reshape(a, shape, order="C"):
         return SymArr.of(a).reshape(shape, order=order)
 
+    def _dt(args, kw):
+        dt = kw.get("dtype", args[0] if args else None)
+        if dt is None:
+            return None
+        name = dt if isinstance(dt, str) else (dt[1] if isinstance(dt, tuple) and len(dt) == 2 and isinstance(dt[1], str) else getattr(dt, "__name__", str(dt)))
+        return "int" if "int" in str(name) else "float" if "float" in str(name) or "double" in str(name) else "bool" if "bool" in str(name) else "other"
+
+    def _all_python_ints(x):
+        if isinstance(x, SymArr):
+            return getattr(x, "int_typed", False)
+        if isinstance(x, (list, tuple)):
+            return bool(x) and all(_all_python_ints(v) for v in x)
+        return isinstance(x, int) and not isinstance(x, bool)
+
+    def _typed(out, src, dt):
+        """dtype of np.array(src, dtype): integers in -> an integer array (stores are cast), unless a real dtype is asked for"""
+        if dt == "int" and not _all_python_ints(src):
+            out = SymArr(out.shape, [_int_cast(v) for v in out.flat])
+        out.int_typed = (dt == "int") or (dt is None and _all_python_ints(src))
+        return out
+
     def array(a, *args, **kw):
-        return SymArr.of(a).copy()
+        if set(kw) - {"dtype", "copy", "order", "ndmin", "subok"}:
+            raise A.Undecided("np.array with %s" % sorted(kw))
+        dt = _dt(args, kw)
+        if dt in ("bool", "other"):
+            raise A.Undecided("np.array with dtype %r" % (kw.get("dtype", args[0] if args else None),))
+        return _typed(SymArr.of(a).copy(), a, dt)
+
+    def asarray(a, *args, **kw):
+        dt = _dt(args, kw)
+        if isinstance(a, SymArr) and (dt is None or (dt == "int") == bool(getattr(a, "int_typed", False))):
+            return a                    # already an array of that dtype: the very same object, no copy
+        return array(a, *args, **kw)
 
     def zeros(shape, *a, **k):
         dt = k.get("dtype", a[0] if a else None)
@@ -1005,7 +1139,7 @@ def np_summaries():
         "np.arange": lambda *a, **k: SymArr.of(list(range(*[_as_int(x, 10 ** 9) if not isinstance(x, int) else x for x in a]))),
         "np.add.outer": lambda a, b: SymArr((SymArr.of(a).size, SymArr.of(b).size), [x + y for x in SymArr.of(a).flatten().flat for y in SymArr.of(b).flatten().flat]),
         "np.multiply.outer": lambda a, b: outer(a, b), "np.atleast_1d": lambda a: SymArr.of(a) if SymArr.of(a).ndim else SymArr.of(a).reshape(1),
-        "np.reshape": reshape, "np.array": array, "np.asarray": array, "np.zeros": zeros, "np.ones": lambda s, *a, **k: SymArr.ones(s), "np.ix_": _sym_ix, "np.broadcast_to": lambda a, shape, subok=False: _broadcast_to(SymArr.of(a), (shape,) if isinstance(shape, int) else tuple(shape)), "np.full": _sym_full, "np.empty": _sym_empty,
+        "np.reshape": reshape, "np.array": array, "np.asarray": asarray, "np.asanyarray": asarray, "np.zeros": zeros, "np.ones": lambda s, *a, **k: SymArr.ones(s), "np.ix_": _sym_ix, "np.where": _sym_where, "np.full_like": _sym_full_like, "np.mean": _sym_mean, "np.dstack": _sym_dstack, "np.broadcast_to": lambda a, shape, subok=False: _broadcast_to(SymArr.of(a), (shape,) if isinstance(shape, int) else tuple(shape)), "np.full": _sym_full, "np.empty": _sym_empty,
         "np.identity": lambda n, *a, **k: SymArr.eye(n),
         "np.eye": lambda n, *a, **k: SymArr.eye(n), "np.identity": lambda n: SymArr.eye(n),
         "np.dot": dot, "np.tensordot": tensordot, "np.einsum": einsum, "np.kron": kron, "np.append": append, "np.bmat": bmat, "np.block": block, "np.transpose": lambda a: SymArr.of(a).T, "np.swapaxes": lambda a, i, j: SymArr.of(a).swapaxes(i, j),
